@@ -23,6 +23,8 @@ import (
 	"time"
 
 	"github.com/Cloud-Foundations/keymaster/lib/certgen"
+	"github.com/Cloud-Foundations/keymaster/lib/paths"
+	"github.com/Cloud-Foundations/keymaster/lib/server/aws_identity_cert"
 	"github.com/go-jose/go-jose/v4"
 	"github.com/go-jose/go-jose/v4/jwt"
 	"golang.org/x/crypto/ssh"
@@ -214,4 +216,48 @@ func roleCertForm(identity string, blocks []string, pubRU string) url.Values {
 		f.Set("pubkey", pubRU)
 	}
 	return f
+}
+
+// ---------------------------------------------------------------- cloud-role (AWS) path
+
+type verifFakeSTS struct{}
+
+func (verifFakeSTS) RoundTrip(r *http.Request) (*http.Response, error) {
+	body := `<GetCallerIdentityResponse xmlns="https://sts.amazonaws.com/doc/2011-06-15/"><GetCallerIdentityResult><Arn>arn:aws:sts::123456789012:assumed-role/verif-role/i-0123456789</Arn><UserId>AROA:i-0123456789</UserId><Account>123456789012</Account></GetCallerIdentityResult></GetCallerIdentityResponse>`
+	rec := httptest.NewRecorder()
+	rec.WriteHeader(200)
+	rec.Body.WriteString(body)
+	return rec.Result(), nil
+}
+
+const verifAwsClaimedArn = "arn:aws:iam::123456789012:role/verif-role"
+
+// Replace the issuer's STS client by one that answers from a canned identity document (the
+// configuration must list account 123456789012 under aws_certs.allowed_accounts).
+func (env *verifEnv) enableFakeAws() {
+	st := env.state
+	failureWriter := func(w http.ResponseWriter, r *http.Request, errorString string, code int) {
+		st.writeFailureResponse(w, r, code, errorString)
+	}
+	issuer, err := aws_identity_cert.New(aws_identity_cert.Params{
+		CertificateGenerator: st.generateRoleCert,
+		AccountIdValidator:   st.checkAwsAccountAllowed,
+		FailureWriter:        failureWriter,
+		HttpClient:           &http.Client{Transport: verifFakeSTS{}},
+		Logger:               st.logger,
+	})
+	if err != nil {
+		panic(err)
+	}
+	st.awsCertIssuer = issuer
+}
+
+func verifAwsRequest(pemKey string) *http.Request {
+	req := httptest.NewRequest("POST", "https://keymaster.example"+paths.RequestAwsRoleCertificatePath, strings.NewReader(pemKey))
+	req.Host = "keymaster.example"
+	req.RemoteAddr = "10.1.2.3:34567"
+	req.Header.Set("Claimed-Arn", verifAwsClaimedArn)
+	req.Header.Set("Presigned-Method", "GET")
+	req.Header.Set("Presigned-Url", "https://sts.us-west-2.amazonaws.com/?Action=GetCallerIdentity&Version=2011-06-15&X-Amz-Signature=abc")
+	return req
 }
